@@ -93,6 +93,11 @@ def _one(args):
                 chk(base + "_ratio", _call(getattr(fm, base + "_ratio"), y, p, sensitive_features=g, method=method, **kw), e["ratio_" + key][0], method)
         for fname, (m, key) in GEN_MINMAX.items():
             chk(fname, _call(getattr(fm, fname), y, p, sensitive_features=g, **kw), per[METRICS.index(m)][key][0])
+        # a call WITHOUT `method` means between_groups - also right after calls that passed method="to_overall" to the same function object
+        for base, m in GEN_DIFF_RATIO.items():
+            e = per[METRICS.index(m)]
+            chk(base + "_difference", _call(getattr(fm, base + "_difference"), y, p, sensitive_features=g, **kw), e["diff_b"][0], "default after to_overall")
+            chk(base + "_ratio", _call(getattr(fm, base + "_ratio"), y, p, sensitive_features=g, **kw), e["ratio_b"][0], "default after to_overall")
         # default method must be between_groups
         chk("demographic_parity_difference", _call(fm.demographic_parity_difference, y, p, sensitive_features=g, **kw), named["dp_diff"][0], "default")
         chk("equalized_odds_ratio", _call(fm.equalized_odds_ratio, y, p, sensitive_features=g, **kw), named["eodds_ratio"][0][0], "default", skip_undef=True)
